@@ -30,7 +30,7 @@
 (* Want* are the values the statement prescribes, NoTighter is the         *)
 (* relation "pod cgroup never tighter than one of its containers".         *)
 (***************************************************************************)
-EXTENDS Integers, Sequences, FiniteSets
+EXTENDS Integers, Sequences, FiniteSets, IOUtils
 
 Absent    == -1        \* amount not declared
 Unlimited == -1        \* cgroup value "no limit" (cfs quota -1 / memory limit -1)
@@ -113,13 +113,20 @@ ContsOK(cs, mark, cfg, conts) ==
                \* a container that declares nothing: left alone (= unlimited) or given the unlimited conversion
                ELSE Untouched(conts[i]) \/ Injected(conts[i], WantContainer(cs[i], cfg))
 \* (ii) + (iii) pod level
+\* second validation pass of the segments rejected for the recorded finding "a container that declares nothing is ignored
+\* at pod level" (known_findings.json): the code's formula (sums over the DECLARING containers) is accepted there, so
+\* that the rest of such a segment is judged too
+TolerateSidecar == "VERIF_TOLERATE_C14_SIDECAR" \in DOMAIN IOEnv
+DeclaringOnly(cs) == SelectSeq(cs, Declares)
 PodOK(cs, mark, cfg, pod) ==
     IF ~IsBE(mark) THEN Untouched(pod)                                                   \* (iii)
     ELSE IF ~UsesBatch(cs) THEN TRUE
-    ELSE Injected(pod, WantPod(cs, cfg))                                                 \* (ii)
+    ELSE IF Injected(pod, WantPod(cs, cfg)) THEN TRUE                                    \* (ii)
+    ELSE TolerateSidecar /\ Injected(pod, WantPod(DeclaringOnly(cs), cfg))
 \* (R) on what was observed (pod and containers observed under the same configuration)
 RelOK(cs, mark, pod, conts) ==
-    Scope(cs, mark) => \A i \in Idx(cs) : NoTighter(InForce(pod), InForce(conts[i]))
+    Scope(cs, mark) => \A i \in Idx(cs) : IF TolerateSidecar /\ ~Declares(cs[i]) THEN TRUE
+                                          ELSE NoTighter(InForce(pod), InForce(conts[i]))
 
 \* the whole statement for one pod
 HookOK(cs, mark, cfg, pod, conts) ==
